@@ -5,5 +5,6 @@ CONSTANTS
   UseCAS = TRUE
   ReleaseClears = TRUE
   PutOnReturn = FALSE
+  FailPuts = 1
 INVARIANT Safety
 CHECK_DEADLOCK FALSE
